@@ -34,6 +34,8 @@ def base_shapes(tier):
                                               ("S", [("y", 1, ("u", 2)), ("x", 0, ("struct", "In")),
                                                      ("z", 5, ("arr", ("struct", "In"), 2)), ("w", 3, ("i", 3))])],
                                      enums=E)))
+    out.append(("big_ids", single([("a", 9007199254740993, ("u", 3)), ("b", 9007199254740992, ("i", 5)),
+                                   ("c", 2 ** 31, ("u", 8)), ("d", 0, ("u", 1))])))
     out.append(("arr_f64", single([("a", 1, ("arr", ("u", 6), 3)), ("b", 0, ("f64",)), ("c", 9, ("u", 1))])))
     if tier == "thorough":
         out.append(("five", single([("a", 4, ("u", 1)), ("b", 3, ("i", 7)), ("c", 2, ("u", 16)), ("d", 1, ("f32",)),
@@ -75,6 +77,8 @@ def c15_serde_case(args):
     serde = serde_checks._setup()
     res = new_result()
     known = Known("C15")
+    from ..prime import prime, decoy_text
+    prime(decoy_text(twin), ("serde", "layout"))
     fA, fB = parse(schema.text()), parse(twin.text())
     top = schema.top
     T = ("struct", top)
@@ -169,6 +173,8 @@ def c15_layout_case(args):
             for fn, fid, t in fs:
                 pt(byname[fn].type, t, f"{sn}.{fn}")
 
+    from ..prime import prime, decoy_text
+    prime(decoy_text(B), ("layout", "serde", "dbc"))
     fA, fB = parse(A.text()), parse(B.text())
     patch(fA, A)
     patch(fB, B)
